@@ -23,7 +23,7 @@ ANCHORS = [
     "stereomolgraph.experimental:JSONHandler._stereo_from_payload",
 ]
 REQUIRED_ANCHORS = ANCHORS
-REQUIRED = ["roundtrips", "has_fleeting_bond", "has_placeholder", "has_none_parity", "has_change", "empty_graph", "scale_cases"] + [f"desc:{c}" for c in sem.CLASSES]
+REQUIRED = ["roundtrips", "has_fleeting_bond", "has_placeholder", "has_none_parity", "has_change", "empty_graph", "scale_cases", "reloads_after_edit"] + [f"desc:{c}" for c in sem.CLASSES]
 
 
 def _big_ids(rng, pg):
@@ -117,4 +117,18 @@ def check_case(ctx, case):
                     ctx.violate(f"C15/not-equal-after-roundtrip/{cls}/{fkey}", "views identical but == / hash disagree", case)
         except Exception as e:  # noqa: BLE001
             ctx.violate(f"C15/eq-raises:{type(e).__name__}/{cls}/{fkey}", f"== / hash of the deserialised graph raised {e!r}", case)
+    # history: the loaded graph is edited, then the same text is loaded again - the second load must still be the original
+    # (a deserialiser that memoises by payload, or shares containers between loads, returns the edited object)
+    if not diff and pg["atoms"]:
+        try:
+            fresh = max(abs(a) for a in pg["atoms"]) + 1
+            h.add_atom(fresh, "Xe")
+            h.remove_atom(next(iter(pg["atoms"])))
+            h2 = JSONHandler.json_deserialize(s)
+            ctx.count("reloads_after_edit")
+            d2 = sem.pg_diff(before, snap(h2), mode="same", attrs=False)
+            if d2 or h2 is h:
+                ctx.violate(f"C15/reload-after-edit-differs/{cls}", f"loading the same JSON text again after editing the first loaded graph: {'same object returned' if h2 is h else d2[0]}", case)
+        except Exception as e:  # noqa: BLE001
+            ctx.violate(f"C15/reload-raises:{type(e).__name__}/{cls}", f"second load raised {e!r}", case)
     ctx.sample({"class": cls, "graph": case_graph_for_sample(case), "json": s[:400]})
